@@ -93,8 +93,21 @@ func rfBuild(root string, preferIndex bool) string {
 	}
 }
 
-// rfLoadOnly: index-preferred Load and a walk of the dependency graph, no build.
-func rfLoadOnly(root string) (outcome string) {
+// rfLoadOnly: index-preferred Load and a walk of the dependency graph, no build (under the same
+// hang guard as rfBuild).
+func rfLoadOnly(root string) string {
+	done := make(chan string, 1)
+	go func() { done <- rfLoadOnlyInner(root) }()
+	select {
+	case out := <-done:
+		return out
+	case <-time.After(45 * time.Second):
+		rfHung = true
+		return "HANG"
+	}
+}
+
+func rfLoadOnlyInner(root string) (outcome string) {
 	defer func() {
 		if p := recover(); p != nil {
 			outcome = fmt.Sprintf("PANIC %v", p)
@@ -459,7 +472,12 @@ func recordFaults(r *vlib.Run) {
 			root2 := filepath.Join(r.Scratch, "rf2")
 			os.RemoveAll(root2)
 			copyDir(root, root2)
-			if out2 := rfLoadOnly(root2); strings.HasPrefix(out2, "PANIC") {
+			out2 := rfLoadOnly(root2)
+			if out2 == "HANG" {
+				r.Violation("C15:record-corruption-hang", fmt.Sprintf("%s of %s at %d (%s): index-preferred Load did not return within 45s", c.kind, c.file, c.pos, c.edit), map[string]any{"file": c.file, "kind": c.kind, "pos": c.pos, "value": c.val, "corrupted": string(m)})
+				return
+			}
+			if strings.HasPrefix(out2, "PANIC") {
 				r.Violation("C15:record-corruption-panic:index-preferred-load", fmt.Sprintf("%s of %s at %d (%s): index-preferred Load + Dependencies: %s", c.kind, c.file, c.pos, c.edit, out2), map[string]any{"file": c.file, "kind": c.kind, "pos": c.pos, "value": c.val, "corrupted": string(m)})
 			}
 			r.Add("record_faults_index_preferred_loads", 1)
